@@ -328,53 +328,305 @@ def timediff(ck):
                data="81 * integers in [-8, 8] (all means exact in binary floating point)")
 
 
-def _timediff_image(ck, tsd_arr, tsd_img):
+def _perm_image(arr, in_names, out_names, in2out, scales):
+    """Image whose array axis k is called in_names[k] and drives world axis in2out[k] (named out_names[in2out[k]]):
+    affine[in2out[k], k] = scales[k], translations 10, 11, ...  Returns (img, affine)."""
     from nipy.core.api import Image, AffineTransform
+    nd = arr.ndim
+    aff = np.zeros((nd + 1, nd + 1))
+    for k in range(nd):
+        aff[in2out[k], k] = scales[k]
+    aff[:nd, nd] = [10.0 + k for k in range(nd)]
+    aff[nd, nd] = 1.0
+    return Image(arr, AffineTransform.from_params(list(in_names), list(out_names), aff)), aff
+
+
+def _tsd_image_configs(ck, nd, rng):
+    """(input names, output names, in2out) families: matching order; time name shared by input and output; every kind of
+    disagreement between array (input) order and world (output) order - permuted input names, permuted affine, both."""
+    ident = list(range(nd))
+    base_in = list("ijkl"[:nd])
+    base_out = list("xyz"[:nd - 1]) + ["t"]
+    cfgs = [("same", base_in, base_out, ident),
+            ("same", list("ijk"[:nd - 1]) + ["t"], base_out, ident)]          # 't' names input and output axis nd-1
+    perms = list(itertools.permutations(range(nd)))[1:]
+    n_perm = len(perms) if (nd <= 3 or ck.thorough()) else 7
+    chosen = [perms[i] for i in sorted(rng.choice(len(perms), size=min(n_perm, len(perms)), replace=False))]
+    # always include the rolls of the last axis to the front / first axis to the back (what rollimg produces)
+    for roll in ([nd - 1] + ident[:-1], ident[1:] + [0]):
+        if tuple(roll) not in chosen and roll != ident:
+            chosen.append(tuple(roll))
+    for j, pm in enumerate(chosen):
+        pm = list(pm)
+        # array axis k carries the name base_in[pm[k]] and drives world axis pm[k]: the image rollimg / reordered_domain gives
+        cfgs.append(("permuted-input", [base_in[q] for q in pm], base_out, pm))
+        if j % 2 == 0:
+            # shared name 't' for the time axis: input axis named 't' wherever it sits in the array
+            nm = [("t" if q == nd - 1 else "ijk"[q]) for q in pm]
+            cfgs.append(("permuted-input", nm, base_out, pm))
+        if j % 3 == 0:
+            # world axes renamed in another order as well (names of outputs permuted relative to the inputs)
+            q2 = list(chosen[(j + 1) % len(chosen)])
+            outn = [None] * nd
+            for k in range(nd):
+                outn[q2[k]] = base_out[k]
+            cfgs.append(("permuted-output", base_in, outn, q2))
+    return cfgs
+
+
+def _timediff_image(ck, tsd_arr, tsd_img):
+    """time_slice_diffs_image on images whose array (input) axis order agrees or DISAGREES with the world (output) axis order
+    (permuted affines, permuted input names, rollimg / reordered results, a name shared by an input and its output axis):
+    every way of naming the time / slice axis (input index, negative index, input name, output name) must give the numbers of
+    the array call on the ARRAY positions of those axes, and of the independent definition; the volume images carry the input
+    names and the coordmap with the time axis (input and matching output) removed."""
+    from nipy.core.api import rollimg
     rng = ck.rng("tsd-img")
     n = 0
-    names_in = "ijkl"
-    names_out = "xyzt"
-    shapes = [(2, 3, 2, 3), (3, 2, 4), (2, 2, 3, 2), (3, 4)]
+    shapes = [(3, 4), (3, 2, 4), (2, 2, 3, 2), (2, 3, 2, 3)]
+    res_cases, wrap_cases = [], []
     for shape in shapes:
         nd = len(shape)
-        arr = (81 * rng.integers(-8, 9, size=shape)).astype(float)
-        dom = names_in[:nd]
-        ran = names_out[:nd - 1] + "t"
-        cmap = AffineTransform.from_params(dom, ran, np.diag([2.0, 3.0, 4.0, 5.0, 1.0][:nd] + [1.0]))
-        img = Image(arr, cmap)
-        for ta in range(nd):
-            for sa in range(nd):
-                if ta == sa:
+        images = []
+        for order, in_names, out_names, in2out in _tsd_image_configs(ck, nd, rng):
+            arr = (81 * rng.integers(-8, 9, size=shape)).astype(float)
+            scales = [2.0, 3.0, 4.0, 5.0][:nd]
+            img, aff = _perm_image(arr, in_names, out_names, in2out, scales)
+            images.append((order, "built", img, arr, list(in_names), list(out_names), list(in2out), aff))
+        # images obtained by moving axes of an existing image (the object a user gets from rollimg)
+        order0, _, img0, arr0, in0, out0, i2o0, aff0 = images[0]
+        for ax in range(nd):
+            for start in (0, nd):
+                pos = start if start < nd else nd - 1
+                if pos == ax:
                     continue
                 try:
-                    ref = tsd_arr(arr, ta, sa)
-                except Exception:  # noqa  (already reported by the array-level oracles)
+                    rimg = rollimg(img0, in0[ax], start if start < nd else -1) if start < nd else rollimg(img0, ax, nd)
+                except Exception:  # noqa
                     continue
-                specs = [(ta, sa), (dom[ta], dom[sa]), (ran[ta], sa), (ta - nd, dom[sa]), (dom[ta], ran[sa]), (ta, sa - nd)]
-                for tspec, sspec in specs:
-                    n += 1
-                    ck.count(("tsd-img", shape, tspec, sspec), bucket="tsd:image")
-                    rep = {"shape": list(shape), "domain": dom, "range": ran, "time_axis": tspec, "slice_axis": sspec,
-                           "data": arr.ravel().tolist()}
-                    try:
-                        r = tsd_img(img, tspec, sspec)
-                    except Exception as e:  # noqa
-                        ck.fail("tsd-image/raises", "time_slice_diffs_image(time_axis=%r, slice_axis=%r) raised %s: %s"
-                                % (tspec, sspec, type(e).__name__, e), rep)
+                pm = [k for k in range(nd) if k != ax]
+                pm.insert(pos, ax)
+                got_names = list(rimg.coordmap.function_domain.coord_names)
+                if got_names != [in0[q] for q in pm]:
+                    continue      # rollimg semantics are C18's subject; only use it when it did what is assumed here
+                raff = aff0[:, pm + [nd]]
+                images.append(("rolled", "rollimg", rimg, np.asarray(rimg.get_fdata()), got_names, out0, [i2o0[q] for q in pm], raff))
+        # images with a name carried by an input axis and a NON-corresponding output axis (ambiguous by contract)
+        for sh in range(1, nd):
+            in_amb = list("ijkl"[:nd])
+            out_amb = list("xyzt"[:nd])
+            out_amb[(0 + sh) % nd] = in_amb[0]
+            arr = (81 * rng.integers(-8, 9, size=shape)).astype(float)
+            img, aff = _perm_image(arr, in_amb, out_amb, list(range(nd)), [2.0, 3.0, 4.0, 5.0][:nd])
+            _tsd_image_resolution(ck, img, in_amb, out_amb, list(range(nd)), "ambiguous-name", res_cases)
+            n += 1
+            ck.count(("tsd-img-amb", shape, sh), bucket="tsd:image:ambiguous-name")
+            other = 1 if nd > 1 else 0
+            try:
+                tsd_img(img, in_amb[0], other)
+                ck.fail("tsd-image/ambiguous-name-accepted",
+                        "time_slice_diffs_image accepted time_axis=%r, which names input axis 0 and the non-corresponding "
+                        "output axis %d (input %s, output %s)" % (in_amb[0], sh % nd, in_amb, out_amb),
+                        {"shape": list(shape), "input_names": in_amb, "output_names": out_amb, "affine": aff.tolist(),
+                         "time_axis": in_amb[0], "slice_axis": other})
+            except Exception:  # noqa
+                pass
+        for order, how, img, arr, in_names, out_names, in2out, aff in images:
+            out_of = [out_names[in2out[k]] for k in range(nd)]         # world name driven by array axis k
+            _tsd_image_resolution(ck, img, in_names, out_names, in2out, order, res_cases)
+            for ta in range(nd):
+                for sa in range(nd):
+                    if ta == sa:
                         continue
-                    for key in TSD_KEYS:
-                        got = r[key].get_fdata() if hasattr(r[key], "get_fdata") else r[key]
-                        if not _same(got, ref[key]):
-                            ck.fail("tsd-image/differs-from-array-call/%s" % key,
-                                    "time_slice_diffs_image(time_axis=%r, slice_axis=%r)[%r] differs from time_slice_diffs(arr, %d, %d)"
-                                    % (tspec, sspec, key, ta, sa), rep)
-                    exp_names = tuple(nm for k, nm in enumerate(dom) if k != ta)
-                    for key in TSD_KEYS[3:]:
-                        got = tuple(r[key].coordmap.function_domain.coord_names)
-                        if got != exp_names:
-                            ck.fail("tsd-image/volume-axis-names", "volume output %r has axes %s, expected %s (time axis %r dropped)"
-                                    % (key, got, exp_names, tspec), rep)
+                    try:
+                        ref = tsd_arr(arr, ta, sa)
+                    except Exception:  # noqa  (already reported by the array-level oracles)
+                        continue
+                    dfn = _tsd_reference(arr, ta, sa)
+                    specs = [(ta, sa), (in_names[ta], in_names[sa]), (out_of[ta], sa), (ta - nd, in_names[sa]),
+                             (in_names[ta], out_of[sa]), (ta, sa - nd), (out_of[ta], out_of[sa])]
+                    seen = set()
+                    for tspec, sspec in specs:
+                        if (tspec, sspec) in seen:
+                            continue
+                        seen.add((tspec, sspec))
+                        # a name used for an input AND a non-corresponding output axis is ambiguous (AxisError by contract)
+                        amb = any(isinstance(sp, str) and sp in in_names and sp in out_names
+                                  and out_names.index(sp) != in2out[in_names.index(sp)] for sp in (tspec, sspec))
+                        if amb:
+                            continue
+                        n += 1
+                        kinds = "+".join("idx" if isinstance(sp, int) else "in-name" if sp in in_names else "out-name"
+                                         for sp in (tspec, sspec))
+                        ck.count(("tsd-img", shape, tuple(in_names), tuple(out_names), tuple(in2out), how, tspec, sspec),
+                                 bucket="tsd:image:%s" % order)
+                        rep = {"shape": list(shape), "input_names": in_names, "output_names": out_names,
+                               "in2out": in2out, "affine": aff.tolist(), "made_by": how,
+                               "time_axis": tspec, "slice_axis": sspec, "array_time_axis": ta, "array_slice_axis": sa,
+                               "data": arr.ravel().tolist()}
+                        try:
+                            r = tsd_img(img, tspec, sspec)
+                        except Exception as e:  # noqa
+                            ck.fail("tsd-image/raises/io-order=%s" % order,
+                                    "time_slice_diffs_image(time_axis=%r, slice_axis=%r) on an image with input axes %s, output "
+                                    "axes %s, in2out %s raised %s: %s" % (tspec, sspec, in_names, out_names, in2out,
+                                                                          type(e).__name__, e), rep)
+                            continue
+                        for key in TSD_KEYS:
+                            got = r[key].get_fdata() if hasattr(r[key], "get_fdata") else r[key]
+                            if not _same(got, ref[key]):
+                                ck.fail("tsd-image/differs-from-array-call/%s/io-order=%s" % (key, order),
+                                        "time_slice_diffs_image(time_axis=%r, slice_axis=%r)[%r] (%s) on an image with input axes "
+                                        "%s, output axes %s, in2out %s differs from time_slice_diffs(arr, %d, %d) on the array "
+                                        "positions of those axes: shape %s vs %s"
+                                        % (tspec, sspec, key, kinds, in_names, out_names, in2out, ta, sa,
+                                           np.asarray(got).shape, np.asarray(ref[key]).shape), rep)
+                            if not _same(got, dfn[key]):
+                                ck.fail("tsd-image/definition/%s/io-order=%s" % (key, order),
+                                        "time_slice_diffs_image(time_axis=%r, slice_axis=%r)[%r] is not the successive-volume "
+                                        "squared difference statistic over the named axes (array axes %d, %d)"
+                                        % (tspec, sspec, key, ta, sa), rep)
+                        if all(hasattr(r[key], "coordmap") for key in TSD_KEYS[3:]):
+                            wrap_cases.append((in_names, out_names, in2out, shape, arr, tspec, sspec, r,
+                                               list(r["diff2_mean_vol"].coordmap.function_domain.coord_names),
+                                               list(r["diff2_mean_vol"].coordmap.function_range.coord_names), order))
+                        exp_names = tuple(nm for k, nm in enumerate(in_names) if k != ta)
+                        exp_out = tuple(nm for k, nm in enumerate(out_names) if k != in2out[ta])
+                        keep_r = [k for k in range(nd + 1) if k != in2out[ta]]
+                        keep_c = [k for k in range(nd + 1) if k != ta]
+                        exp_aff = aff[np.ix_(keep_r, keep_c)]
+                        for key in TSD_KEYS[3:]:
+                            if not hasattr(r[key], "coordmap"):
+                                ck.fail("tsd-image/volume-not-image", "volume output %r is not an image" % key, rep)
+                                continue
+                            cmv = r[key].coordmap
+                            got = tuple(cmv.function_domain.coord_names)
+                            if got != exp_names:
+                                ck.fail("tsd-image/volume-axis-names/io-order=%s" % order,
+                                        "volume output %r has axes %s, expected %s (time axis %r dropped)"
+                                        % (key, got, exp_names, tspec), rep)
+                            gout = tuple(cmv.function_range.coord_names)
+                            if gout != exp_out or np.asarray(cmv.affine).shape != exp_aff.shape \
+                                    or not np.array_equal(np.asarray(cmv.affine), exp_aff):
+                                ck.fail("tsd-image/volume-coordmap/io-order=%s" % order,
+                                        "volume output %r: output axes %s / affine %s, expected the image's coordmap with input "
+                                        "axis %d and output axis %d removed (%s / %s)"
+                                        % (key, gout, np.asarray(cmv.affine).tolist(), ta, in2out[ta], exp_out,
+                                           exp_aff.tolist()), rep)
+    _tsd_image_model(ck, res_cases, wrap_cases)
     return n
+
+
+HDR_IMG = ("From Coq Require Import String.\nFrom Coq Require Import List ZArith QArith.\n"
+           "From NV.Lib Require Import C19Index Harness.\nFrom NV.C19 Require Import TsdModel ImgAxisModel.\n")
+
+
+def _c_axid(sp):
+    return "(AxInt %s)" % cz(sp) if isinstance(sp, int) else "(AxName %s)" % cstr(sp)
+
+
+def _c_cmap(in_names, out_names, in2out):
+    return "(mk_cmap %s %s %s)" % (clist([cstr(x) for x in in_names]), clist([cstr(x) for x in out_names]),
+                                   clist(["(Some %s)" % cnat(x) for x in in2out]))
+
+
+def _tsd_image_resolution(ck, img, in_names, out_names, in2out, order, res_cases):
+    """io_axis_indices of the running code on every kind of axis id (indices incl. negative and out of range, every input
+    and output name, an unknown name): oracle = the pair (array position, world position) known from the construction;
+    the observed outcome is recorded for the comparison with the Coq model."""
+    from nipy.core.reference.coordinate_map import io_axis_indices, AxisError
+    nd = len(in_names)
+    ids = list(range(-nd - 1, nd + 1)) + list(dict.fromkeys(list(in_names) + list(out_names))) + ["q"]
+    for sp in ids:
+        try:
+            got = io_axis_indices(img.coordmap, sp)
+            out = ("ok", got[0], got[1])
+        except AxisError as e:
+            out = ("mismatch" if "correspond" in str(e) else "noname",)
+        except KeyError:
+            out = ("keyerror",)
+        except Exception as e:  # noqa
+            out = ("other:" + type(e).__name__,)
+        ck.count(("io-axis", tuple(in_names), tuple(out_names), tuple(in2out), sp), nontrivial=True,
+                 bucket="io_axis_indices:%s" % order)
+        rep = {"input_names": in_names, "output_names": out_names, "in2out": in2out, "axis_id": sp, "got": list(out)}
+        # direct oracle (independent of Coq): the documented meaning of the id
+        if isinstance(sp, int):
+            k = sp if sp >= 0 else nd + sp
+            exp = ("ok", k, in2out[k]) if 0 <= k < nd else None      # out of range: any exception is fine
+        elif sp in in_names:
+            k = in_names.index(sp)
+            exp = ("mismatch",) if (sp in out_names and out_names.index(sp) != in2out[k]) else ("ok", k, in2out[k])
+        elif sp in out_names:
+            j = out_names.index(sp)
+            exp = ("ok", in2out.index(j), j)
+        else:
+            exp = ("noname",)
+        if exp is not None and tuple(out) != exp:
+            ck.fail("io_axis_indices/%s/io-order=%s" % ("index" if isinstance(sp, int) else "input-name" if sp in in_names
+                                                        else "output-name" if sp in out_names else "unknown-name", order),
+                    "io_axis_indices(coordmap(%s -> %s, in2out %s), %r) gave %s, expected %s (input = array position, "
+                    "output = world position)" % (in_names, out_names, in2out, sp, out, exp), rep)
+        if exp is None and out[0] == "ok":
+            ck.fail("io_axis_indices/index-out-of-range-accepted/io-order=%s" % order,
+                    "io_axis_indices accepted the integer axis %d for %d input axes: %s" % (sp, nd, out), rep)
+        res_cases.append((in_names, out_names, in2out, sp, out, order))
+
+
+def _tsd_image_model(ck, res_cases, wrap_cases):
+    """Exact comparison of the Gallina model (ImgAxisModel.v) with the outcomes recorded above."""
+    if ck.build is None or not ck.build.ok:
+        return
+    terms, meta = [], []
+    for in_names, out_names, in2out, sp, out, order in res_cases:
+        if out[0] == "ok":
+            e = "(AxOk %s %s)" % tuple("None" if v is None else "(Some %s)" % cnat(int(v)) for v in out[1:])
+        else:
+            e = {"mismatch": "AxMismatch", "noname": "AxNoName", "keyerror": "AxKeyError"}.get(out[0])
+            if e is None:
+                ck.fail("io_axis_indices/unexpected-exception", "io_axis_indices raised %s" % out[0],
+                        {"input_names": in_names, "output_names": out_names, "in2out": in2out, "axis_id": sp})
+                continue
+        terms.append("ax_res_eqb (io_axis_indices %s %s) %s" % (_c_cmap(in_names, out_names, in2out), _c_axid(sp), e))
+        meta.append(("res", in_names, out_names, in2out, sp, out, order))
+    pick = ck.rng("tsd-img-pick")
+    n_w = ck.n(90, 600)
+    wc = [w for w in wrap_cases if int(np.prod(w[3])) <= 48]
+    idx = sorted(pick.choice(len(wc), size=min(n_w, len(wc)), replace=False)) if wc else []
+    for i in idx:
+        in_names, out_names, in2out, shape, arr, tspec, sspec, r, vin, vout, order = wc[i]
+        dmv = np.asarray(r["diff2_mean_vol"].get_fdata(), dtype=float)
+        smv = np.asarray(r["slice_diff2_max_vol"].get_fdata(), dtype=float)
+        isnan = bool(np.isnan(dmv).all()) if dmv.size else False
+        if np.isnan(dmv).any() and not isnan:
+            continue
+        e_dmv = "[]" if isnan else cql([frac(x) for x in dmv.ravel()])
+        terms.append("tsd_image_check %s %s %s %s %s %s %s %s %s %s %s %s %s %s" % (
+            _c_cmap(in_names, out_names, in2out), cnatl(shape), czl([int(x) for x in arr.ravel()]),
+            _c_axid(tspec), _c_axid(sspec),
+            cql([frac(x) for x in r["volume_mean_diff2"]]), _qmat(r["slice_mean_diff2"]),
+            cql([frac(x) for x in r["volume_means"]]), cnatl(dmv.shape), e_dmv,
+            cql([frac(x) for x in smv.ravel()]), cbool(isnan),
+            clist([cstr(x) for x in vin]), clist([cstr(x) for x in vout])))
+        meta.append(("wrap", in_names, out_names, in2out, (tspec, sspec), None, order))
+    res = ck.coq_bools(HDR_IMG, terms, shard=400, name="tsdimg")
+    ck.cov["traces_validated_against_impl"] += len(res)
+    seen = set()
+    for ok, (kind, in_names, out_names, in2out, sp, out, order) in zip(res, meta):
+        if ok:
+            continue
+        sig = "tsd-image/model-vs-impl/%s/io-order=%s" % ("io_axis_indices" if kind == "res" else "wrapper", order)
+        if sig in seen:
+            continue
+        seen.add(sig)
+        rep = {"input_names": in_names, "output_names": out_names, "in2out": in2out, "axis_id": sp,
+               "impl": None if out is None else list(out)}
+        if kind == "res":
+            rep["model"] = ck.coq_show(HDR_IMG, "io_axis_indices %s %s" % (_c_cmap(in_names, out_names, in2out), _c_axid(sp)))
+        ck.fail(sig, "Coq model of %s and the implementation disagree for input axes %s, output axes %s, in2out %s, axis id %r"
+                % ("io_axis_indices" if kind == "res" else "time_slice_diffs_image", in_names, out_names, in2out, sp), rep)
+    ck.section("time_slice_diffs_image", io_axis_indices_model_cases=sum(1 for m in meta if m[0] == "res"),
+               wrapper_model_cases=sum(1 for m in meta if m[0] == "wrap"), wrapper_impl_calls=len(wrap_cases))
 
 
 # ============================================================ labs/mask.py
